@@ -382,6 +382,9 @@ func e2eMain(bin, tmpl, work string, n int) int {
 	if rc := e2eBlocks(len(pend)+extra, &extra); rc != 0 {
 		return rc
 	}
+	if rc := e2eTsOverflow(len(pend)+extra, &extra); rc != 0 {
+		return rc
+	}
 	fmt.Printf("{\"e2e_done\":%d}\n", len(pend)+extra)
 	return 0
 }
@@ -793,6 +796,48 @@ func e2eBlocks(base int, extra *int) int {
 			}
 		}
 		gen.Emit(j.c)
+	}
+	return 0
+}
+
+
+// e2eTsOverflow: valid timestamps that denote an instant beyond int64 nanoseconds under a coarse precision must be
+// refused (4xx) and store nothing; storing them at some other instant is a failure.
+func e2eTsOverflow(base int, extra *int) int {
+	cases := []struct {
+		prec string
+		ts   string
+	}{{"s", "18446744074"}, {"s", "9223372037"}, {"ms", "18446744073710"}, {"h", "5124096"}, {"m", "307445735"}, {"u", "18446744073709552"}}
+	for i, tc := range cases {
+		m := fmt.Sprintf("tsov%d", i)
+		text := m + " x=1i " + tc.ts
+		st, rb, err := httpPost("/write", url.Values{"db": {"c06"}, "precision": {tc.prec}}, []byte(text))
+		if err != nil {
+			fmt.Println("ERROR e2e: write", err)
+			return 2
+		}
+		c := &E2ECase{E2E: base + *extra, Class: "ts-overflow", Prec: tc.prec, Text: text, Status: st, Got: string(rb), Oracle: []OracleFail{}}
+		*extra++
+		time.Sleep(300 * time.Millisecond)
+		var rows []map[string]interface{}
+		for try := 0; try < 8; try++ {
+			rows, _, err = rowsOf(m)
+			if err != nil {
+				fmt.Println("ERROR e2e: query", err)
+				return 2
+			}
+			if len(rows) > 0 || st != 204 {
+				break
+			}
+			time.Sleep(250 * time.Millisecond)
+		}
+		if len(rows) > 0 {
+			ts, _ := cellInt(rows[0]["time"])
+			c.Oracle = append(c.Oracle, OracleFail{"C06-ts-overflow", fmt.Sprintf("timestamp %s (precision %s) is beyond int64 ns; answered %d and stored at %d", tc.ts, tc.prec, st, ts)})
+		} else if st < 400 || st >= 500 {
+			c.Oracle = append(c.Oracle, OracleFail{"C06-ts-overflow", fmt.Sprintf("timestamp %s (precision %s) is beyond int64 ns; answered %d without an error (no row visible)", tc.ts, tc.prec, st)})
+		}
+		gen.Emit(c)
 	}
 	return 0
 }
